@@ -5,6 +5,7 @@ package main
 import (
 	"fmt"
 	"regexp"
+	"strings"
 
 	"github.com/gopacket/gopacket"
 	"github.com/gopacket/gopacket/zzverif/vsync"
@@ -65,7 +66,7 @@ func equivalence(c dspace.Case, w *enum.Worker) {
 				if o.Pool && !o.NoCopy {
 					name = "pool"
 				}
-				w.Violation("c04|result-differs-from-default|"+name+"|"+divergence(p, p0), fmt.Sprintf("options %+v: packet differs from the default decode:\n%.600s\nvs default\n%.600s", o, s, s0))
+				w.Violation("c04|result-differs-from-default|"+name+"|"+divergence(p, p0, c.First.Name), fmt.Sprintf("options %+v: packet differs from the default decode:\n%.600s\nvs default\n%.600s", o, s, s0))
 			}
 			if pp, ok := p.(gopacket.PooledPacket); ok {
 				pp.Dispose()
@@ -78,7 +79,7 @@ func equivalence(c dspace.Case, w *enum.Worker) {
 }
 
 // divergence names the first layer at which two packets differ: "<type in p>/<type in ref>".
-func divergence(p, ref gopacket.Packet) (d string) {
+func divergence(p, ref gopacket.Packet, first string) (d string) {
 	defer func() {
 		if r := recover(); r != nil {
 			d = "panic"
@@ -96,10 +97,14 @@ func divergence(p, ref gopacket.Packet) (d string) {
 			d := a[i].LayerType().String() + "/" + b[i].LayerType().String()
 			if a[i].LayerType() == gopacket.LayerTypeDecodeFailure && b[i].LayerType() == gopacket.LayerTypeDecodeFailure {
 				// both fail, differently: name the decoder by the layer in front, or the case's first layer
-				if i > 0 {
+				// both fail, differently: name the decoder that failed - the case's first layer, or
+				// the one the layer in front hands over to
+				if nl, ok := a[max(i-1, 0)].(interface{ NextLayerType() gopacket.LayerType }); i > 0 && ok {
+					d += " in " + nl.NextLayerType().String()
+				} else if i > 0 {
 					d += " after " + a[i-1].LayerType().String()
 				} else {
-					d += " at first layer"
+					d += " in " + strings.TrimPrefix(first, "LayerType:")
 				}
 			}
 			return d
